@@ -650,6 +650,20 @@ func (s *Service) streamResponse(clientCtx, upstreamCtx context.Context, w http.
 	readDeadline := time.NewTimer(s.configuration.GetReadTimeout())
 	defer readDeadline.Stop()
 
+	// resp.Body.Read blocks, so the deadline above is only looked at between reads and a
+	// backend that stops sending would hold the request forever. The watchdog closes the
+	// body when a single read outlives the read timeout, which makes that read return.
+	readTimeout := s.configuration.GetReadTimeout()
+	var stalled atomic.Bool
+	var watchdog *time.Timer
+	if readTimeout > 0 {
+		watchdog = time.AfterFunc(readTimeout, func() {
+			stalled.Store(true)
+			_ = resp.Body.Close()
+		})
+		defer watchdog.Stop()
+	}
+
 	for {
 		// Check for context cancellation
 		if err := s.checkContexts(clientCtx, upstreamCtx, readDeadline, state, rlog); err != nil {
@@ -667,11 +681,18 @@ func (s *Service) streamResponse(clientCtx, upstreamCtx context.Context, w http.
 			}
 		}
 		readDeadline.Reset(s.configuration.GetReadTimeout())
+		if watchdog != nil {
+			watchdog.Reset(readTimeout)
+		}
 
 		// Read and process data
 		if err := s.processStreamData(resp, buffer, state, w, isStreaming, rc, rlog); err != nil {
 			if errors.Is(err, io.EOF) {
 				return state.totalBytes, state.lastChunk, nil
+			}
+			if stalled.Load() {
+				// the read was interrupted by the watchdog, not by the backend
+				return state.totalBytes, state.lastChunk, fmt.Errorf("read timeout after %v", readTimeout)
 			}
 			rlog.Debug("read error during streaming", "error", err, "bytes_read", state.totalBytes)
 			return state.totalBytes, state.lastChunk, err
